@@ -31,7 +31,7 @@ pub fn chunkings(fe: &Fe, bs: usize, l: usize, kind: Kind) -> Vec<Vec<P>> {
         v.push(vec![p(fe.gran, kind), p(0, kind), p(l - fe.gran, kind)]);
     }
     if l > 0 {
-        v.push((0..l / fe.gran).map(|_| P { len: fe.gran, kind, single: fe.singles }).collect());
+        v.push((0..l / fe.gran).map(|_| P { len: fe.gran, kind, single: fe.singles, closure: 0 }).collect());
         if fe.singles {
             // unit-sized pieces through the multi-block entry point as well
             v.push((0..l / fe.gran).map(|_| p(fe.gran, kind)).collect());
